@@ -369,7 +369,7 @@ class Run:
             if extra:
                 cmd += extra
             log = open(os.path.join(self.scratch, "%s-%d.log" % (engine, s)), "w")
-            procs.append((subprocess.Popen(cmd, stdout=log, stderr=subprocess.STDOUT, env=dict(GOENV, GOMAXPROCS="4")), trace, work, log, s))
+            procs.append((subprocess.Popen(cmd, stdout=log, stderr=subprocess.STDOUT, env=dict(GOENV, GOMAXPROCS="2")), trace, work, log, s))
             if replay:
                 break
         eng = self.cov["engines"].setdefault(engine, {"cases": 0, "checked": 0, "diffs": 0, "traces": 0})
